@@ -208,12 +208,13 @@ def calculate_first_sets(grammar):
                     nullable[rule.name] = True
                     some_change = True
 
-            # Update first sets:
+            # Update first sets. A nullable symbol contributes its first
+            # set, and so does the symbol after it:
             for beta in rule.symbols:
+                if first[beta] - first[rule.name]:
+                    first[rule.name] |= first[beta]
+                    some_change = True
                 if not nullable[beta]:
-                    if first[beta] - first[rule.name]:
-                        first[rule.name] |= first[beta]
-                        some_change = True
                     break
         if not some_change:
             break
